@@ -230,4 +230,149 @@ theorem gen_Pers_split_eq (y doy : Int) (h1 : -decBound < doy - 1 - 186) (h2 : d
 
 theorem gen_Pers_leapArithmetic_eq (y : Int) : Gen.C01.Pers.leapArithmetic y = Pers.leapArithmetic y := rfl
 
+/-! ## `_YearMonthDayCalculator`: the calendar-independent layer (virtual members = abstract callees, instantiated
+      with the record `c : Calc` of the model; instance attributes = parameters) -/
+
+/-- agreement of two results up to the KIND of error: the generated year search evaluates `_get_days_in_year` once
+    before its second loop, the model's `fwdLoop` at the head of every round, so when the fuel runs out exactly
+    where that call fails the two report different errors (both fail; with fuel left they are equal) -/
+def Agree {α} (a b : R α) : Prop := a = b ∨ ((∃ e, a = .error e) ∧ (∃ e, b = .error e))
+
+theorem Agree.rfl' {α} (a : R α) : Agree a a := Or.inl rfl
+
+theorem Agree.bind {α β} {a b : R α} (h : Agree a b) (f : α → R β) : Agree (a >>= f) (b >>= f) := by
+  rcases h with h | ⟨⟨e, he⟩, ⟨e', he'⟩⟩
+  · exact Or.inl (by rw [h])
+  · exact Or.inr ⟨⟨e, by rw [he]; rfl⟩, ⟨e', by rw [he']; rfl⟩⟩
+
+theorem gen_Calc_minYear_eq (n : Int) : Gen.C01.Calc.minYear n = n := rfl
+theorem gen_Calc_maxYear_eq (n : Int) : Gen.C01.Calc.maxYear n = n := rfl
+theorem gen_Calc_daysAtStartOfYear1_eq (n : Int) : Gen.C01.Calc.daysAtStartOfYear1 n = n := rfl
+
+/-- first correction loop of `_get_year` = `backLoop` -/
+theorem gen_Calc_getYear_loop1_eq (c : Calc) (s : Int → R Int) (d1 avg : Int) (f : Nat) (cand rem : Int) :
+    Gen.C01.Calc.getYear.loop1 s c.lenR d1 avg f cand rem = backLoop c f cand rem := by
+  induction f generalizing cand rem with
+  | zero => rfl
+  | succ n ih =>
+    unfold Gen.C01.Calc.getYear.loop1 backLoop
+    by_cases h : rem < 0
+    · simp only [h, if_true, ih]
+    · simp only [h, if_false]
+
+/-- second correction loop of `_get_year` (with the year length evaluated before each test) against `fwdLoop` -/
+theorem gen_Calc_getYear_loop2_agree (c : Calc) (s : Int → R Int) (d1 avg : Int) (f : Nat) (cand rem : Int) :
+    Agree (c.lenR cand >>= fun l => Gen.C01.Calc.getYear.loop2 s c.lenR d1 avg f cand rem l >>= fun r => .ok (r.1, r.2.1))
+      (fwdLoop c f cand rem) := by
+  induction f generalizing cand rem with
+  | zero =>
+    refine Or.inr ⟨?_, ⟨_, rfl⟩⟩
+    cases c.lenR cand with
+    | error e => exact ⟨e, rfl⟩
+    | ok l => exact ⟨_, rfl⟩
+  | succ n ih =>
+    unfold fwdLoop
+    cases hl : c.lenR cand with
+    | error e => exact Or.inl rfl
+    | ok l =>
+      unfold Gen.C01.Calc.getYear.loop2
+      simp only [bind, Except.bind]
+      by_cases h : rem ≥ l
+      · simp only [h, if_true]
+        have := ih (cand + 1) (rem - l)
+        simp only [bind, Except.bind] at this
+        cases hl' : c.lenR (cand + 1) with
+        | error e => rw [hl'] at this; exact this
+        | ok l' => rw [hl'] at this; exact this
+      · simp only [h, if_false]
+        exact Or.inl rfl
+
+theorem gen_Calc_getYear_agree (c : Calc) (d : Int) :
+    Agree (Gen.C01.Calc.getYear c.startR c.lenR c.daysAtYear1 (c.avg10 + 1) d) (getYear c d) := by
+  unfold Gen.C01.Calc.getYear getYear estimate
+  simp only [gen_Calc_daysAtStartOfYear1_eq, yearFuel]
+  cases pyTdiv ((d - c.daysAtYear1) * 10) (c.avg10 + 1) with
+  | error e => exact Or.inl rfl
+  | ok q =>
+    simp only [bind, Except.bind, pure, Except.pure]
+    cases c.startR (q + 1) with
+    | error e => exact Or.inl rfl
+    | ok st =>
+      simp only
+      by_cases h : d - st < 0
+      · simp only [h, if_true, gen_Calc_getYear_loop1_eq]
+        cases backLoop c 64 (q + 1) (d - st) with
+        | error e => exact Or.inl rfl
+        | ok r => exact Or.inl rfl
+      · simp only [h, if_false]
+        have := gen_Calc_getYear_loop2_agree c c.startR c.daysAtYear1 (c.avg10 + 1) 64 (q + 1) (d - st)
+        simp only [bind, Except.bind] at this
+        cases hl : c.lenR (q + 1) with
+        | error e =>
+          rw [hl] at this
+          exact this
+        | ok l =>
+          rw [hl] at this
+          simp only at this ⊢
+          cases hr : Gen.C01.Calc.getYear.loop2 c.startR c.lenR c.daysAtYear1 (c.avg10 + 1) 64 (q + 1) (d - st) l with
+          | error e => rw [hr] at this; exact this
+          | ok r => rw [hr] at this; exact this
+
+theorem gen_Calc_getYearMonthDay_eq (split : Int → Int → R Gen.YMD) (y doy : Int) :
+    Gen.C01.Calc.getYearMonthDay split y doy = split y doy := rfl
+
+/-- the model's `splitR`/`ymdOfDays` return pairs/triples; the code returns a `_YearMonthDay` -/
+def splitYMD (c : Calc) (y doy : Int) : R Gen.YMD := do
+  let r ← c.splitR y doy
+  .ok ⟨y, r.1, r.2⟩
+
+theorem gen_Calc_ymdOfDays_agree (c : Calc) (d : Int) :
+    Agree (Gen.C01.Calc.ymdOfDays c.startR c.lenR (splitYMD c) c.daysAtYear1 (c.avg10 + 1) d)
+      (do let r ← ymdOfDays c d; .ok (⟨r.1, r.2.1, r.2.2⟩ : Gen.YMD)) := by
+  unfold Gen.C01.Calc.ymdOfDays ymdOfDays
+  have h := (gen_Calc_getYear_agree c d).bind (fun r => splitYMD c r.1 (r.2 + 1))
+  rcases h with h | h
+  · left
+    show (Gen.C01.Calc.getYear c.startR c.lenR c.daysAtYear1 (c.avg10 + 1) d >>= fun r => splitYMD c r.1 (r.2 + 1)) = _
+    rw [h]
+    cases getYear c d with
+    | error e => rfl
+    | ok r =>
+      obtain ⟨y, z⟩ := r
+      show splitYMD c y (z + 1) = _
+      unfold splitYMD
+      simp only [bind, Except.bind, pure, Except.pure]
+      cases c.splitR y (z + 1) with
+      | error e => rfl
+      | ok v => obtain ⟨m, dd⟩ := v; rfl
+  · right
+    refine ⟨h.1, ?_⟩
+    obtain ⟨e, he⟩ := h.2
+    cases hg : getYear c d with
+    | error e' => exact ⟨e', rfl⟩
+    | ok r =>
+      rw [hg] at he
+      have he' : splitYMD c r.1 (r.2 + 1) = .error e := he
+      unfold splitYMD at he'
+      cases hs : c.splitR r.1 (r.2 + 1) with
+      | error e'' => exact ⟨e'', by simp only [bind, Except.bind, hs]⟩
+      | ok v => rw [hs] at he'; cases he'
+
+theorem gen_Calc_daysOfYmdRaw_eq (c : Calc) (ymd : Gen.YMD) :
+    Gen.C01.Calc.daysOfYmdRaw c.startR (fun y m => .ok (c.toMonth y m)) ymd = daysOfYmdRaw c ymd.year ymd.month ymd.day := rfl
+
+theorem gen_Calc_validate_eq (c : Calc) (y m d : Int) :
+    Gen.C01.Calc.validate c.months c.dim c.minYear c.maxYear y m d = validate c y m d := by
+  unfold Gen.C01.Calc.validate validate
+  simp only [gen_Calc_minYear_eq, gen_Calc_maxYear_eq]
+  cases checkRange y c.minYear c.maxYear with
+  | error e => rfl
+  | ok _ =>
+    cases checkRange m 1 (c.months y) with
+    | error e => rfl
+    | ok _ => cases checkRange d 1 (c.dim y m) <;> rfl
+
+theorem gen_Calc_dayOfYear_eq (c : Calc) (ymd : Gen.YMD) :
+    Gen.C01.Calc.dayOfYear (fun y m => .ok (c.toMonth y m)) ymd = .ok (dayOfYear c ymd.year ymd.month ymd.day) := rfl
+
 end Pyoda.GenAgree.C01
